@@ -4,11 +4,11 @@
 package e2
 
 import (
-	"github.com/golang/protobuf/proto"
-	"github.com/vx-labs/wasp/v4/wasp/api"
 	"context"
 	"errors"
 	"fmt"
+	"github.com/golang/protobuf/proto"
+	"github.com/vx-labs/wasp/v4/wasp/api"
 	"net"
 	"os"
 	"path/filepath"
@@ -287,10 +287,10 @@ type World struct {
 	lastSessionID  string
 	SessionOf      map[string]string
 
-	unreachable map[[2]uint64]bool
+	unreachable    map[[2]uint64]bool
 	shutdownOnCall map[uint64]bool
-	LogEvents   []LogEvent
-	RPCEvents   []RPCEvent
+	LogEvents      []LogEvent
+	RPCEvents      []RPCEvent
 
 	// Gossip: messages drained from each node's queue, waiting for delivery.
 	Pending []*GossipMsg
@@ -710,7 +710,6 @@ func (w *World) pendingFrom(idx int) uint64 {
 	}
 	return 0
 }
-
 
 // decodeSessions lists the session entries of a gossip payload as "id" -> live (added and not removed).
 func decodeSessions(b []byte) map[string]bool {
